@@ -189,6 +189,7 @@ var zzC19Corpus = []string{
 	/* 31 */ "<pre>\n\nfirst line after a blank one</pre><pre><span>\n x</span>\n<b>y\n</b></pre>",
 	/* 32 */ "<div><textarea>\n\n two</textarea></div>",
 	// text outside ASCII
+	/* 34 */ "<a title=\"Voilà, c'est tout — Привет мир, 元気 です\" href=\"/à la carte\">à  b</a>",
 	/* 33 */ "<p title=\"naïve — “quoted” 日本語\">Füße &amp; Ærøskøbing – 東京 🙂 {{ größe > 1 ? 'ü' : 'ö' }}</p><pre>  日本\n 語 </pre>",
 }
 
